@@ -54,6 +54,15 @@ var codecReader = &xStateSpec{
 		"b.ReadInt64": "tr_ReadInt64"},
 }
 
+// the request id counter msgID (package tars): the state is the counter, the sync/atomic calls on it are primitives
+var msgIDCounter = &xStateSpec{
+	Type: "Z",
+	Prims: map[string]xStPrim{
+		"atomic.CompareAndSwapInt32": {Coq: "go_atomic_cas32", Args: []int{1, 2}, Fixed: map[int]string{0: "&msgID"}, NRes: 1},
+		"atomic.AddInt32":            {Coq: "go_atomic_add32", Args: []int{1}, Fixed: map[int]string{0: "&msgID"}, NRes: 1},
+	},
+}
+
 func rdUnit(name, fn string, fuel bool, group string) xUnit {
 	return xUnit{Name: name, Dir: "tars/protocol/codec", Func: "Reader." + fn, State: codecReader, Fuel: fuel, Group: group}
 }
@@ -85,6 +94,12 @@ var xUnits = []xUnit{
 	rdUnit("tr_ReadInt64", "ReadInt64", true, ""), rdUnit("tr_ReadUint8", "ReadUint8", true, ""), rdUnit("tr_ReadUint16", "ReadUint16", true, ""),
 	rdUnit("tr_ReadUint32", "ReadUint32", true, ""), rdUnit("tr_ReadBool", "ReadBool", true, ""), rdUnit("tr_ReadString", "ReadString", true, ""),
 	rdUnit("tr_ReadSliceUint8", "ReadSliceUint8", false, ""), rdUnit("tr_ReadBytes", "ReadBytes", false, ""),
+	// ServantProxy.genRequestID: the compare-and-swap step, then the add loop (one sequential call is the two in a row)
+	{Name: "tr_genRequestID_cas", Dir: "tars", Func: "ServantProxy.genRequestID", Globals: []string{"maxInt32"}, State: msgIDCounter,
+		From: "^", To: "atomic.CompareAndSwapInt32(&msgID, maxInt32, 1)",
+		After: []string{"for {\n\n\tif v := atomic.AddInt32(&msgID, 1); v != 0 {\n\t\treturn v\n\t}\n}"}},
+	{Name: "tr_genRequestID_loop", Dir: "tars", Func: "ServantProxy.genRequestID", State: msgIDCounter, Fuel: true, Group: "reqid",
+		From: "for {", To: "for {", After: []string{}},
 	// the registry <-> endpoint conversions (Tars2endpoint without its cache key)
 	{Name: "tr_Endpoint2tars", Dir: "tars/util/endpoint", Func: "Endpoint2tars"},
 	{Name: "tr_Tars2endpoint_build", Dir: "tars/util/endpoint", Func: "Tars2endpoint", From: "^", To: "e := Endpoint{",
@@ -132,7 +147,7 @@ func newXLoader(root string) *xLoader {
 }
 
 func (l *xLoader) Import(path string) (*types.Package, error) {
-	if path == "encoding/binary" || path == "math" || path == "bytes" || path == "time" || path == "io" {
+	if path == "encoding/binary" || path == "math" || path == "bytes" || path == "time" || path == "io" || path == "sync/atomic" {
 		return l.std.Import(path)
 	}
 	if l.mod != "" && strings.HasPrefix(path, l.mod+"/") {
@@ -233,6 +248,8 @@ func xlateUnit(root string, u *xUnit, units []xUnit, ld *xLoader, records map[st
 			x.fail(fd, "declared global %s is not a package-level variable", gname)
 		}
 		params = append(params, "("+x.declare(obj)+" : "+x.coqType(fd, obj.Type())+")")
+		x.paramNames = append(x.paramNames, x.names[obj])
+		x.isParam[obj] = true
 	}
 	// results
 	var rts []string
@@ -438,6 +455,20 @@ func xlateUnit(root string, u *xUnit, units []xUnit, ld *xLoader, records map[st
 		sort.Slice(free, func(i, j int) bool { return free[i].Pos() < free[j].Pos() })
 		for _, v := range free {
 			params = append(params, "("+x.declare(v)+" : "+x.coqType(fd, v.Type())+")")
+			x.paramNames = append(x.paramNames, x.names[v])
+			x.isParam[v] = true
+		}
+		if u.State != nil { // state mode: the state is the last parameter and the first component of what is returned
+			params = append(params, "(rd : "+u.State.Type+")")
+			x.paramNames = append(x.paramNames, "rd")
+			all := append([]string{u.State.Type}, rts...)
+			x.retType = "(" + strings.Join(all, " * ") + ")"
+			if len(all) == 1 {
+				x.retType = all[0]
+			}
+		}
+		if u.Fuel {
+			params = append([]string{"(fuel : nat)"}, params...)
 		}
 		// the variables handed on: declared inside the slice or parameters of it
 		var outs []*types.Var
